@@ -41,6 +41,15 @@ Theorem C19_gen_lock_created_iff : gen_init_ok_sync = true /\ gen_init_ok_async 
 Proof. exact (conj eq_refl eq_refl). Qed.
 Print Assumptions C19_gen_lock_created_iff.
 
+(* per-channel STATE (the held-back partial escape sequence, buffers: any attribute of the channel object) is written
+   only inside the lock section: no public operation writes an attribute of self -- directly or through any helper method /
+   property it calls -- before it holds the lock or after it released it (ast scan StateScan of gen/gen_lock.py over the
+   whole bodies of the operations; a caller queueing for the lock cannot disturb the read state of the exchange in flight) *)
+Theorem C19_gen_state_written_in_lock_section :
+  gen_state_written_outside_lock_sync = false /\ gen_state_written_outside_lock_async = false.
+Proof. exact (conj eq_refl eq_refl). Qed.
+Print Assumptions C19_gen_state_written_in_lock_section.
+
 (* ---- every path of every operation is one lock section, closed on every exit ------------------ *)
 (* for every execution path of every public operation (any branch, any number of loop iterations,
    any transport call or local computation raising, cancellation while waiting for the lock): the
